@@ -5,12 +5,13 @@ patch=$1; tier=$2; shift 2
 cd /repo || exit 2
 if ! git diff --quiet; then echo "repo dirty"; exit 2; fi
 git apply "$patch" || { echo "patch does not apply"; exit 2; }
-trap 'git -C /repo checkout -- . ' EXIT
+trap 'git -C /repo checkout -- . ; git -C /repo clean -qfd -- teos/src watchtower-plugin/src teos-common/src' EXIT
 mkdir -p /var/tmp/mutrun; cp /verif/known_findings.json /verif/properties.jsonl /var/tmp/mutrun/
 cd /verif/harness && cargo build 2>&1 | grep -E "^error" -A 8
 for c in "$@"; do
   case "$c" in C05|C13|C14) cargo build --offline --manifest-path /repo/watchtower-plugin/Cargo.toml --features verif --bin watchtower-client --target-dir /verif/harness/target/repo-bins 2>&1 | grep -E "^error" -A 8;; esac
-  out=$(VERIF_CLIENT_BIN=/verif/harness/target/repo-bins/debug/watchtower-client VERIF_DIR=/var/tmp/mutrun timeout 1200 ./target/debug/verif $c --tier $tier 2>&1)
+  if [ "$c" = "C01" ]; then cargo build --offline --manifest-path /repo/teos/Cargo.toml --features verif --bin teosd --target-dir /verif/harness/target/repo-bins 2>&1 | grep -E "^error" -A 8; fi
+  out=$(VERIF_TEOSD_BIN=/verif/harness/target/repo-bins/debug/teosd VERIF_CLIENT_BIN=/verif/harness/target/repo-bins/debug/watchtower-client VERIF_DIR=/var/tmp/mutrun timeout 1200 ./target/debug/verif $c --tier $tier 2>&1)
   code=$?
   echo "== $c exit=$code"
   echo "$out" | grep -E "VIOLATION|signature|OK property|MACHINERY" | cut -c1-220 | head -8
